@@ -1240,6 +1240,11 @@ def _const_cols(i, j):
     for a, b in zip(i, j):
         if a[0] in ("k", "c") and b[0] in ("k", "c") and a != b and not (a == C(None) or b == C(None)):
             return True
+        # class-level column / key constants of one class (cls.MASS, cls.QEXT): differently named constants are different keys
+        # (the same convention as for the module-level column constants)
+        if a[0] == "attr" and b[0] == "attr" and a[1] == b[1] and a[1] in (N("cls"), N("self")) and a[2] != b[2] \
+                and a[2].isupper() and b[2].isupper():
+            return True
     return False
 
 
